@@ -41,6 +41,10 @@ claimed["C13"]=dict(cat="translation_validation", ref="DESIGN.md §4 C13",
 claimed["C19"]=dict(cat="model_checking", ref="DESIGN.md §4 C19",
    text="Constructor/accessor round trips for ALL values of each scalar type (solver-decided), the six NewFunc adapter forms × arity 0..6 × results 0..4 (variadic: fixed 0..3 + extras 0..3) called from scripts with other operands on the stack (argument/result labels symbolic), Call/Func with every requested result count and wrong arities, and native-panic / nested-call failures surfacing as the outer error.",
    note="Bounded by the arity/result tables; one call per harness. Trusted: go/ssa, engine (exact growslice model so stack reallocation aliasing is faithful), z3; replay natively.", tech="symbolic execution of Go SSA (lemma harnesses with symbolic labels) + SMT; native replay")
+
+claimed["C07"]=dict(cat="model_checking", ref="DESIGN.md §4 C07",
+   text="Monitored execution: while goatlang's real exec runs symbolically on every feasible path of each program (statement-form list, C06 skeletons, C08/C09/C11/C12 corpora; inputs symbolic), invariants are evaluated at the head of every dispatch-loop iteration: same operand depth on every visit of a pc on every path and never negative, pc inside the function, `$` operands below the slot count, each instruction's stack effect (calls: −consumed +requested), RETURN k with exactly k values, nothing residual when a body falls off its end, caller locals identical across calls; results are also compared with Go.",
+   note="Covers feasible paths only (CFG paths no input can take are not covered). Per-opcode stack effects are the monitor's specification, read off do.go. Monitor violations are confirmed by re-executing the real code with the concrete inputs in the engine (the stack discipline is not observable natively); result/output disagreements are replayed natively. Trusted: go/ssa, engine, z3.", tech="symbolic execution of Go SSA with VM-state monitors at every dispatch step + SMT path exploration")
 reasons={}
 checks=[]
 for pid in ALL:
